@@ -13,6 +13,8 @@ from __future__ import annotations
 import json
 from fractions import Fraction
 
+import numpy as np
+
 from .. import core, gamma
 from .. import scoresdrv as sd
 
@@ -51,7 +53,20 @@ def queries(cuts, cid):
     return list(dict.fromkeys(qs))
 
 
-def auc_event(ev, s, h, qs):
+ALIAS = {"fpr": "far", "tpr": "tar", "fnr": "frr", "tnr": "trr"}
+
+
+def bound(fr, k):
+    """an integration limit as a Python float, or in another numeric type that represents it exactly"""
+    x = fr.numerator / fr.denominator
+    if fr.denominator == 1 and k % 3 == 1:
+        return [int(fr), bool(fr), np.int64(int(fr))][k % 3 if False else (k // 3) % 3]
+    if fr.denominator in (1, 2, 4, 8) and k % 3 == 2:
+        return [np.float32(x), np.array(x), np.float16(x)][(k // 3) % 3]
+    return x
+
+
+def auc_event(ev, s, h, qs, variant=0):
     e = ev("auc", h=h, q=[[a.numerator, a.denominator, b.numerator, b.denominator, x, y]
                           for a, b, x, y in qs], out=[], add=[], comp=[], mirr=[])
     idx = {q: i + 1 for i, q in enumerate(qs)}
@@ -67,11 +82,14 @@ def auc_event(ev, s, h, qs):
                 e["add"].append([i, j, idx[(a, c, "fpr", "tpr")]])
     try:
         out = []
-        for a, b, x, y in qs:
-            if (a, b, x, y) == (Fraction(0), Fraction(1), "fpr", "tpr"):
+        for k, (a, b, x, y) in enumerate(qs):
+            if (a, b, x, y) == (Fraction(0), Fraction(1), "fpr", "tpr") and variant % 2 == 0:
                 v = s.auc()                               # the documented defaults
             else:
-                v = s.auc(float(a), float(b), x_axis=x, y_axis=y)
+                # axis names possibly through their aliases, limits possibly as ints / bools / float32 / 0-d arrays
+                xa = ALIAS[x] if (variant + k) % 3 == 1 else x
+                ya = ALIAS[y] if (variant + k) % 4 == 2 else y
+                v = s.auc(bound(a, variant + k), bound(b, variant + k + 3), x_axis=xa, y_axis=ya)
             out.append(gamma.proj_rat(v, 20000, ulps=256))
         e["out"] = out
     except Exception as ex:  # noqa
@@ -106,7 +124,7 @@ def events_for_case(o, cid, g, cuts, ids):
     s = sd.new_event(ev, o, g, h=1)
     if s is None:
         return evs
-    auc_event(ev, s, 1, queries(cuts, cid))
+    auc_event(ev, s, 1, queries(cuts, cid), variant=cid)
     if cid % 3 == 0:
         on = dict(o, en=0) if cid % 2 == 0 else dict(o, ep=0)   # abstract object: huge side declared 0
         sn = sd.new_event(ev, on, g, h=3)
